@@ -72,7 +72,7 @@ impl SrcProp {
     fn reorder_chance(&self) -> u32 {
         match self.which {
             Which::C01 | Which::C03 => 48,
-            Which::C04 | Which::C06 | Which::C11 => 24,
+            Which::C04 | Which::C11 => 24,
             _ => 0,
         }
     }
